@@ -3,6 +3,7 @@
 //! The input numbers start with the component number understood by `mrun` (the extracted model).
 mod broadcast;
 mod codec;
+mod handle;
 mod conn;
 mod port;
 mod robs_deque;
@@ -132,6 +133,7 @@ fn main() {
         "robs_set" => robs_set::run(seed, count, &extra, &mut out),
         "broadcast" => broadcast::run(seed, count, &extra, &mut out),
         "io" => io::run(seed, count, &extra, &mut out),
+        "handle" => handle::run(seed, count, &extra, &mut out),
         _ => {
             eprintln!("unknown component {comp}");
             std::process::exit(2);
